@@ -231,6 +231,7 @@ macro_rules! pinst {
         #[kani::unwind(16)]
         #[kani::stub(std::hash::RandomState::new, fixed_random_state)]
         #[kani::stub(alloc::fmt::format, digits_fmt_stub)]
+        #[kani::stub(alloc::vec::Vec::append, crate::util::vec_append_stub)]
         pub fn $name() { print_check($c, $s) }
     };
 }
